@@ -173,7 +173,9 @@ public:
   void* mapping = nullptr;
   size_t mapping_len = 0;
 
-  static uintptr_t base_of_index(int idx) { return (uintptr_t)MBOX_BASE0 + (uintptr_t)idx * kSpacing; }
+  // registry mode needs no alignment of the region to its size, so it deliberately gets none: a translation that
+  // forgets the null short-circuit or masks where it should subtract becomes visible
+  static uintptr_t base_of_index(int idx) { return (uintptr_t)MBOX_BASE0 + (uintptr_t)idx * kSpacing + (Cfg::mode == REGISTRY ? 0x3000 : 0); }
   uint8_t* mem() const { return reinterpret_cast<uint8_t*>(base); }
 
   uint64_t fn_to_rep(const void* p) const
